@@ -4,6 +4,8 @@ from __future__ import annotations
 import numpy as np
 from hypothesis import strategies as st
 
+from vp.gen.morph import fl
+
 from vp import core
 from vp.gen import morph as gm
 from vp.checks import c01
@@ -44,7 +46,7 @@ def _spec(draw, tier):
     base["dt"] = draw(st.one_of(st.sampled_from([0.025, 1e3, 1e9, 1e6]), gm.log_uniform(1e-6, 1e9), gm.log_uniform(1e-6, 1e9), gm.log_uniform(1e-3, 1e3)))
     base["recip_backend"] = draw(st.sampled_from(BACKENDS))
     base["recip_solver"] = draw(st.sampled_from(["bwd_euler", "crank_nicolson"]))
-    base["e_uniform"] = draw(st.floats(-90.0, -40.0))
+    base["e_uniform"] = draw(fl(-90.0, -40.0))
     return base
 
 
